@@ -58,6 +58,7 @@ type Engine struct {
 	lastNowSec, lastNowNs *Term
 	folded map[string]int // vAssert labels decided by the term simplifier alone
 	syncMaps map[string]*MapData
+	globalSubst map[int]*Term // x == const facts established by unconditional vAssume
 	globalLits map[int]bool // literals established by unconditional vAssume
 	globalLitV int
 }
@@ -78,6 +79,7 @@ type HarnessSpec struct {
 	KnownOpen   []string // ids of known findings listed as open (vKnown)
 	Par          int  // solver processes for this harness
 	IgnoreBlocked bool // a path that blocks forever is not a violation in this harness (assumed away, noted)
+	NoCOI        bool // keep every assumption in every query (no cone-of-influence reduction)
 	NoLightPass  bool // skip the first attempt without facts
 	NoTactic     bool // z3: plain (check-sat) instead of (check-sat-using qfaufbv)
 	GroupAsserts bool // decide all asserts with one query (cheap harnesses)
@@ -132,8 +134,8 @@ func (e *Engine) oblige(kind, label string, cond *Term, pos token.Pos, fn string
 }
 
 func shortPath(s string) string {
-	if i := strings.Index(s, "/repo/"); i >= 0 {
-		return s[i+6:]
+	if strings.HasPrefix(s, repoRoot+"/") {
+		return s[len(repoRoot)+1:]
 	}
 	if i := strings.LastIndex(s, "/go/src/"); i >= 0 {
 		return "go/" + s[i+8:]
@@ -323,6 +325,7 @@ type frame struct {
 	litG   *Term
 	litM   map[int]bool
 	litV   int
+	litS   map[int]*Term
 }
 
 func (e *Engine) bound(fn *ssa.Function) int {
@@ -444,13 +447,19 @@ func (fr *frame) lits(g *Term) map[int]bool {
 	if g == fr.litG && fr.litV == e.globalLitV {
 		return fr.litM
 	}
-	m := guardLits(g)
+	ls := guardLitSet(g)
+	m := ls.truth
 	for k, v := range e.globalLits {
 		if _, ok := m[k]; !ok {
 			m[k] = v
 		}
 	}
-	fr.litG, fr.litM, fr.litV = g, m, e.globalLitV
+	for k, v := range e.globalSubst {
+		if _, ok := ls.subst[k]; !ok {
+			ls.subst[k] = v
+		}
+	}
+	fr.litG, fr.litM, fr.litV, fr.litS = g, m, e.globalLitV, ls.subst
 	return fr.litM
 }
 
@@ -459,7 +468,8 @@ func (fr *frame) ctx(t *Term, g *Term) *Term {
 	if t.op == OConst || t.op == OVar || (g.IsTrue() && len(fr.e.globalLits) == 0) {
 		return t
 	}
-	return simplifyUnder(t, fr.lits(g), 400)
+	l := fr.lits(g)
+	return simplifyUnderS(t, l, fr.litS, 400)
 }
 
 func (fr *frame) setReg(v ssa.Value, val Value, g *Term) {
